@@ -131,16 +131,44 @@ class NpProxy:
         return numpy.arctan2(*a, **k)
 
     @staticmethod
-    def isclose(*a, **k):
-        if any(has_sym(x) for x in a):
-            raise Unsupported("isclose of symbolic values")
-        return numpy.isclose(*a, **k)
+    def isclose(a, b, rtol=1e-05, atol=1e-08, equal_nan=False):
+        if not (has_sym(a) or has_sym(b)):
+            return numpy.isclose(a, b, rtol=rtol, atol=atol, equal_nan=equal_nan)
+        import z3
+
+        from .scalars import SymBool, frac, vz
+
+        aa, bb = numpy.broadcast_arrays(numpy.array(a, dtype=object), numpy.array(b, dtype=object))
+        out = numpy.empty(aa.shape, dtype=object)
+        for idx in numpy.ndindex(aa.shape):
+            x, y = Sym.lift(aa[idx]), Sym.lift(bb[idx])
+            if x is None or y is None:
+                raise Unsupported("isclose of non-numeric content")
+            if x.is_const() and y.is_const():
+                out[idx] = bool(abs(x.v - y.v) <= frac(atol) + frac(rtol) * abs(y.v))
+                continue
+            d = x.z() - y.z()
+            ay = z3.If(y.z() >= 0, y.z(), -y.z())
+            lim = vz(frac(atol)) + vz(frac(rtol)) * ay
+            c = z3.simplify(z3.And(d <= lim, -d <= lim))
+            out[idx] = True if z3.is_true(c) else (False if z3.is_false(c) else SymBool(c))
+        return out
 
     @staticmethod
-    def allclose(*a, **k):
-        if any(has_sym(x) for x in a):
-            raise Unsupported("allclose of symbolic values")
-        return numpy.allclose(*a, **k)
+    def allclose(a, b, rtol=1e-05, atol=1e-08, equal_nan=False):
+        if not (has_sym(a) or has_sym(b)):
+            return numpy.allclose(a, b, rtol=rtol, atol=atol, equal_nan=equal_nan)
+        r = NpProxy.isclose(a, b, rtol=rtol, atol=atol, equal_nan=equal_nan)
+        return all(bool(x) for x in r.flat)
+
+    @staticmethod
+    def array_equal(a, b, **k):
+        if not (has_sym(a) or has_sym(b)):
+            return numpy.array_equal(a, b, **k)
+        aa, bb = numpy.array(a, dtype=object), numpy.array(b, dtype=object)
+        if aa.shape != bb.shape:
+            return False
+        return all(bool(Sym.lift(x) == Sym.lift(y)) for x, y in zip(aa.flat, bb.flat))
 
 
 NP = NpProxy()
